@@ -12,7 +12,7 @@ from . import proto, rec, scen as scen_mod
 
 VERIF = proto.VERIF
 CACHE = os.path.join(VERIF, ".cache")
-REPO = "/repo"
+REPO = os.environ.get("AQV_REPO", "/repo")   # AQV_REPO: scratch worktree when testing seeded changes
 
 
 def source_hash(extra=""):
